@@ -17,6 +17,7 @@ class Relay:
     def __init__(self, target_port):
         self.target = target_port
         self.limit, self.mode = None, 'cut'
+        self.live = None
         self.delivered = 0
         self.stream = b''
         self.ls = socket.socket(); self.ls.setsockopt(socket.SOL_SOCKET, socket.SO_REUSEADDR, 1)
@@ -63,6 +64,8 @@ class Relay:
                 d = b.recv(4096)
                 if not d:
                     break
+                if self.live is not None:
+                    limit, mode = self.live, 'cut'          # a cut position set while the connection is already up
                 if limit is not None:
                     room = limit - self.delivered
                     if len(d) >= room:
@@ -308,6 +311,56 @@ def run(ctx):
             else:
                 nnontriv += 1
             via.close_gateway()
+        # ---- a fault while the gateway is being OPENED, a recovery, then a fault during a read on the recovered gateway: the proxy must
+        # discard that connection too and reconnect on the next use
+        for first_cut in ((0, 10, 28 + 7, 28 + 40) if ctx.thorough else (10, 28 + 7)):
+            via = proxy(host='127.0.0.1', port=relay.port, timeout=1.0, depth=2)
+            try:
+                relay.live, relay.limit, relay.mode = None, first_cut, 'cut'
+                e1 = None
+                try:
+                    with via:
+                        list(via.read(tags))
+                except Exception as e:
+                    e1 = type(e).__name__
+                ncut += 1
+                w = dict(api='proxy', sequence='cut while opening / recover / cut during read / next use', first_cut_at=first_cut, first_error=e1)
+                if e1 is None:
+                    bad(w, 'proxy.read returned although the connection was cut while the gateway was being opened'); continue
+                relay.limit = None
+                try:
+                    with via:
+                        rec = [canon(v) for v in via.read(tags)]
+                except Exception as e:
+                    rec = type(e).__name__
+                if rec != good:
+                    bad(dict(w, recovery=rec), 'the use after a failed open did not reconnect and return correct data'); continue
+                relay.live = relay.delivered + 9               # the next reply is cut 9 bytes in, on the live connection
+                e2, got = None, []
+                try:
+                    with via:
+                        for v in via.read(tags):
+                            got.append(canon(v))
+                except Exception as e:
+                    e2 = type(e).__name__
+                relay.live = None
+                w.update(second_error=e2, second_results=got)
+                if got != good[:len(got)] or (e2 is None and len(got) != len(good)):
+                    bad(w, 'proxy.read yielded wrong or silently fewer results under a cut connection'); continue
+                if e2 is not None and via.gateway is not None:
+                    bad(w, 'after a failed read on a recovered gateway the proxy did not discard its connection'); continue
+                try:
+                    with via:
+                        again = [canon(v) for v in via.read(tags)]
+                except Exception as e:
+                    again = type(e).__name__
+                if again != good:
+                    bad(dict(w, next_use=again), 'the use after the second failure did not reconnect and return correct data')
+                else:
+                    nnontriv += 1
+            finally:
+                relay.live = None
+                via.close_gateway()
         # ---- a bare proxy.list_identity() on an established gateway, its reply cut at every k-th offset: must raise, discard, reconnect
         relay.limit = None
         via = proxy(host='127.0.0.1', port=relay.port, timeout=1.0, depth=2)
